@@ -703,7 +703,7 @@ def w_memcheck(ck, rel, n):
 
 
 def w_fuzzer(ck, runs, jobs=8):
-    """libFuzzer target over kalign_read_input -> kalign_run -> kalign_write_msa; artifacts re-run through the ASan CLI for triage"""
+    """(runs = seconds per job) libFuzzer target over kalign_read_input -> kalign_run -> kalign_write_msa; artifacts re-run through the ASan CLI for triage"""
     fz = build("fuzz")
     asan = build("asan")
     work = ck.tmpdir()
@@ -717,10 +717,12 @@ def w_fuzzer(ck, runs, jobs=8):
                 common.write_bytes(os.path.join(corp, "c%03d_%d" % (i, k)), b)
     for name, b in seeds(ck):
         common.write_bytes(os.path.join(corp, "seed_" + name), b)
-    cmd = [fz["fuzzer"], corp, "-runs=%d" % runs, "-max_len=4096", "-timeout=20", "-rss_limit_mb=3000", "-artifact_prefix=%s/" % art,
-           "-jobs=%d" % jobs, "-workers=%d" % jobs, "-print_final_stats=1", "-use_value_profile=1", "-close_fd_mask=1"]
+    # coverage-guided exploration is bounded by time per job (its speed depends on what it finds: 1..50 executions/s under ASan with two
+    # OpenMP threads); the verdict does not depend on the bound, only the amount explored, which is reported in the evidence
+    cmd = [fz["fuzzer"], corp, "-max_total_time=%d" % runs, "-max_len=2048", "-timeout=25", "-rss_limit_mb=3000", "-artifact_prefix=%s/" % art,
+           "-jobs=%d" % jobs, "-workers=%d" % jobs, "-print_final_stats=1", "-reload=0"]
     env = {"ASAN_OPTIONS": "detect_leaks=0:allocator_may_return_null=1:quarantine_size_mb=8:exitcode=%d" % common.ASAN_EXIT, "KFUZZ_TMP": work}
-    r = common.run_proc(cmd, env=env, timeout=6 * 3600, cpu=40 * 3600, cwd=work)
+    r = common.run_proc(cmd, env=env, timeout=runs * 6 + 1200, cpu=runs * jobs * 4 + 3600, cwd=work)
     cov = 0
     execs = 0
     for fn in glob.glob(os.path.join(work, "fuzz-*.log")):
@@ -733,6 +735,8 @@ def w_fuzzer(ck, runs, jobs=8):
     ck.cov["libfuzzer_edges_covered"] = cov
     ck.cov["libfuzzer_executions"] = execs
     ck.evaluated(("fuzzer", runs), n=max(1, execs))
+    ck.cov["libfuzzer_seconds_per_job"] = runs
+    ck.cov["libfuzzer_jobs"] = jobs
     arts = sorted(os.listdir(art))
     ck.cov["libfuzzer_artifacts"] = len(arts)
     for a in arts[:200]:
@@ -750,7 +754,7 @@ def run(ck, tier):
     if tier == "quick":
         nmut, nopt, npert, ncodes, nmem = 1000, 250, 40, 60, 28
     else:
-        nmut, nopt, npert, ncodes, nmem = 40000, 4000, 600, 1500, 400
+        nmut, nopt, npert, ncodes, nmem = 15000, 3000, 400, 1000, 300
     w_corpus(ck, asan)
     w_faults(ck, asan)
     w_options(ck, asan, int(nopt * sc))
@@ -760,7 +764,7 @@ def run(ck, tier):
     w_perturb(ck, rel, int(npert * sc))
     w_memcheck(ck, rel, int(nmem * sc))
     if tier == "thorough":
-        w_fuzzer(ck, int(2500 * sc), jobs=12)
+        w_fuzzer(ck, int(600 * sc), jobs=14)
     ck.rule = ("one process per input through the real CLI built with ASan+UBSan(+LSan): fixed regression corpus (witnesses of repaired defects, buffer boundaries 511/512/513/1023/"
                "1024/1025 residues and records, > 1024/1536 input and > 1024/2048 output lines, names of 255..5000 characters, 1 MB line, empty / header-only / residue-only files, "
                "header-less and over-full MSF/Clustal blocks), structure-aware mutations of valid FASTA/MSF/Clustal files and grammar-generated near-valid files, option fuzzing, "
